@@ -47,7 +47,7 @@ class PatchVariant(Variant):
 
 
 MECH_TRANSFORMS = ('unparse', 'rename', 'swapeq', 'flipif', 'logging', 'yieldfrom', 'fstring', 'elsereturn', 'ifexp', 'augexpand',
-                   'tmpvar', 'all')
+                   'tmpvar', 'all', 'kwargs', 'cachelocal', 'structconst', 'boolwrap', 'all2')
 
 
 class MechVariant(Variant):
